@@ -16,7 +16,7 @@ RULE = ("bounded-exhaustive bracket sequences: every sequence of N leaves from {
 ASSUMPTIONS = ["programs whose only issue is gates after a trailing unmatched prepare_all are not judged (statement ambiguous)",
                "termination of accepted programs is C08's clause: a step-budget overrun here is inconclusive for C12"]
 TIERS = {"quick": {"shards": 8, "budget_s": 480}, "thorough": {"shards": 16, "budget_s": 480}}
-REQUIRE = {"bracket-programs-built-from-S-expressions": 1000, "macro-whose-body-is-a-subcircuit-block": 300, "circuits-grown-between-runs": 500, "two-level-macro-programs:G": 200, "two-level-macro-programs:S": 100, "bracket-programs-through-CircuitBuilder": 150, "built-through-CircuitBuilder": 300, "idle-gate-variants": 2000, "loop-count-overridden-programs": 1000, "object-assembled-programs": 2000, "ref-accept": 500, "ref-reject:measure-without-prepare": 100, "ref-reject:gate-outside-subcircuit": 100,
+REQUIRE = {"programs-run-after-their-macros-were-expanded:M": 200, "programs-run-after-their-macros-were-expanded:PM": 50, "results-checked-for-one-object-per-pair": 3000, "bracket-programs-built-from-S-expressions": 1000, "macro-whose-body-is-a-subcircuit-block": 300, "circuits-grown-between-runs": 500, "two-level-macro-programs:G": 200, "two-level-macro-programs:S": 100, "bracket-programs-through-CircuitBuilder": 150, "built-through-CircuitBuilder": 300, "idle-gate-variants": 2000, "loop-count-overridden-programs": 1000, "object-assembled-programs": 2000, "ref-accept": 500, "ref-reject:measure-without-prepare": 100, "ref-reject:gate-outside-subcircuit": 100,
            "ref-reject:measure-in-loop-closes-earlier-prepare": 50, "states-compared": 500}
 
 
@@ -36,8 +36,22 @@ def judge(case):
         if om[0] != "ok":
             return "skipped:expand-macros-first-rejected", [], None
         s.c = om[1]
+    if case.get("pre") == "M":
+        # the user expands the macros, then runs the result (the emulator's own passes meet a circuit without macros)
+        om = lib.outcome(lib.expand_macros, s.c)
+        if om[0] != "ok":
+            return "skipped:expand-macros-first-rejected", [], None
+        s.c = om[1]
+    elif case.get("pre") == "PM" and not asm:
+        # ... or asks the parser to do so
+        om = lib.outcome(lib.parse, s.text, X.native(), expand_macro=True)
+        if om[0] != "ok":
+            return "skipped:expand-macros-first-rejected", [], None
+        s.c = om[1]
     P = s.P
     info = {}
+    if case.get("pre"):
+        info["pre"] = case["pre"]
     if P.overlap() is not None:
         return "skipped:overlapping-parallel", [], None
     if P.repeated_qubit_gate() is not None:
@@ -85,6 +99,20 @@ def judge(case):
     if len(rs) != len(subs):
         fails.append(("subcircuit-count", {"expected": len(subs), "got": len(rs)}))
         return "ok", fails, info
+    # one subcircuit PER pair: as many different objects as pairs, numbered in flat order, and every readout filed under
+    # the pair that produced it
+    objs = list(o[1].subcircuits)
+    info["identity"] = 1
+    if len({id(x) for x in objs}) != len(objs):
+        fails.append(("one-subcircuit-object-stands-for-several-pairs", {"indices": [sc["index"] for sc in rs]}))
+        return "ok", fails, info
+    if [sc["index"] for sc in rs] != list(range(len(rs))):
+        fails.append(("subcircuits-not-numbered-in-flat-order", {"indices": [sc["index"] for sc in rs]}))
+        return "ok", fails, info
+    for sc, ob in zip(rs, objs):
+        if any(r.subcircuit is not ob for r in ob.readouts):
+            fails.append(("readout-filed-under-another-subcircuit", {"index": sc["index"]}))
+            return "ok", fails, info
     cmp = 0
     straddle = set(P.straddling(subs))
     for i, sc in enumerate(rs):
@@ -250,6 +278,9 @@ def process(ctx, case, seen, minimise_budget=120):
     if "msg" in info:
         rec.count("emulator-message:%s -> reference %s" % (info["msg"], info["ref"]))
     rec.count("states-compared", info.get("compared", 0))
+    rec.count("results-checked-for-one-object-per-pair", info.get("identity", 0))
+    if info.get("pre"):
+        rec.count("programs-run-after-their-macros-were-expanded:" + info["pre"])
     f = prog_features(prog)
     for clause, detail in fails:
         key = (clause,)
@@ -262,12 +293,16 @@ def process(ctx, case, seen, minimise_budget=120):
             base["bseed"] = case.get("bseed", 0)
         if case.get("ov"):
             base.update(ov=case["ov"], order=case.get("order"))
+        if case.get("pre"):
+            base["pre"] = case["pre"]
         small = minimise.minimise(prog, lambda p: clause in _clauses(dict(base, prog=p)), budget=minimise_budget) if minimise_budget else prog
         small_case = dict(base, prog=small)
         d2 = [x for x in judge(small_case)[1] if x[0] == clause]
         feats = shape_features(small)
         if base.get("ov"):
             feats = set(feats) | {"loop-count-overridden", "macros-expanded-first" if base.get("order") == "ML" else "lets-filled-first"}
+        if base.get("pre"):
+            feats = set(feats) | {"macros-expanded-before-the-run"}
         if base.get("assemble") == "builder":
             feats = set(feats) | {"built-through-CircuitBuilder"}
         elif base.get("assemble"):
@@ -383,6 +418,7 @@ def shard(ctx):
                 if ms is not None:
                     process(ctx, {"prog": ms, "assemble": "builder", "bseed": ctx.rng.randrange(1 << 30)}, seen, minimise_budget=0)
                     rec.count("macro-whose-body-is-a-subcircuit-block")
+                    process(ctx, {"prog": ms, "assemble": "builder", "bseed": ctx.rng.randrange(1 << 30), "pre": "M"}, seen, minimise_budget=0)
             if j % 6 == 4:
                 # built from the S-expression, subcircuit blocks (empty ones too) directly as loop bodies
                 process(ctx, {"prog": prog, "assemble": "build"}, seen, minimise_budget=0)
@@ -398,6 +434,8 @@ def shard(ctx):
                     if tp is not None:
                         process(ctx, {"prog": tp}, seen, minimise_budget=0)
                         rec.count("two-level-macro-programs:" + kind)
+                        if kind != "N":
+                            process(ctx, {"prog": tp, "pre": ctx.rng.choice(["M", "PM"])}, seen, minimise_budget=0)
             if j % 3 == 0:
                 lp = letify(ctx.rng, prog)
                 if lp is not None:
